@@ -101,6 +101,9 @@ static void *al_raw_alloc(size_t sz, int zero) {
 	size_t cap = sim_knobs.realloc_inplace ? ((sz + 15u) & ~(size_t)15u) : sz;
 	uint8_t *p = zero ? calloc(1, cap + AL_REDZ) : malloc(cap + AL_REDZ);
 	if (!p) return NULL;
+	/* what malloc hands out is not zero and not whatever the process happened to free last: a fixed pattern, so that
+	 * code which relies on fresh memory being clean misbehaves the same way in every process */
+	if (!zero) memset(p, 0xA5, cap);
 	memset(p + cap, AL_CANARY, AL_REDZ);
 #ifdef SEAM_ASAN
 	__asan_poison_memory_region(p + cap, AL_REDZ);
@@ -122,6 +125,7 @@ static void al_raw_free(int i, int check) {
 	void *p = g_al[i].p;
 	int bad = al_check_redzone(i);
 	size_t sz = g_al[i].sz;
+	memset(p, 0xDD, g_al[i].cap);   /* freed memory does not keep its content either */
 	al_del_idx(i);
 	free(p);
 	if (bad && check) sim_violation("heap-overrun", "library wrote %d byte(s) or more past the end of a %zu byte allocation (red zone damaged)", bad, sz);
@@ -160,6 +164,7 @@ void *sim_realloc(void *old, size_t sz) {
 	if (sim_knobs.realloc_inplace && sz <= g_al[i].cap && sz > 0) {
 		/* grows/shrinks inside the block's granule: same address */
 		g_al_bytes += sz; g_al_bytes -= g_al[i].sz;
+		if (sz > g_al[i].sz) memset((uint8_t *)old + g_al[i].sz, 0xA5, sz - g_al[i].sz);
 		g_al[i].sz = sz;
 		sim_probe("alloc.realloc_in_place");
 		return old;
